@@ -8,6 +8,8 @@ import NixModel.Lemmas.C12VecWrite
 import NixModel.Lemmas.C12Order
 import NixModel.Generated.MutatorOrder
 import NixModel.Props.C12Links
+import NixModel.Props.C12Data
+import NixModel.Props.C12Copies
 
 /-!
 # C12 — a refused operation leaves the file exactly as it was
